@@ -281,6 +281,18 @@ impl Workload {
                 left = left.saturating_sub(k as u64 + 1);
                 continue;
             }
+            if self.lead_pattern_p > 0.0 && self.fixed_len.is_none() && r.chance(self.lead_pattern_p * 0.4) {
+                // a burst of 120..300 packets of 0-3 bytes in one instant: more datagrams than one
+                // frame can count (127), whatever their size
+                let t = r.range(from_us, until_us.max(from_us));
+                let k = *r.pick(&[120u32, 127, 128, 129, 200, 300]);
+                for _ in 0..k {
+                    plan.push(t, 0x4000_0000 + tag, Op::Send { ep, to, ch: self.short_ch, mode: self.tiny_mode, len: r.below(4) as u32, tag });
+                    tag += 1;
+                }
+                left = left.saturating_sub(k as u64);
+                continue;
+            }
             let burst = r.range(1, self.burst_max).min(left);
             let t = r.range(from_us, until_us.max(from_us));
             let spread = if r.chance(0.5) { 0 } else { r.below(50_000) };
